@@ -21,6 +21,9 @@ VALUES = {
     "other-alias": ["vp_b -o", "vp_c"],       # vp_b / vp_c are alias names too (and helpers): expanded once
     "self": None,                              # NAME='NAME -z' for NAME in vp_b, vp_c
     "equals": ["vp_argv k=v"],
+    # values without a blank that still have to be read as shell text: a pipeline, a quoted command word
+    "no-blank-pipe": ["vp_a|vp_b", "vp_a p|vp_b"],
+    "quoted-command-word": ['"vp_argv"', "'vp_a'", '"vp_a" -q'],
 }
 
 
@@ -39,7 +42,7 @@ def value_argvs(value, extra):
     """expected helper invocations [(name, argv[1:])] for `VALUE extra...`"""
     stages = []
     cur = []
-    for tok in shlex.split(value, posix=True):
+    for tok in shlex.split(value.replace("|", " | "), posix=True):      # (no value has a quoted `|`)
         if tok == "|":
             stages.append(cur)
             cur = []
